@@ -1,3 +1,5 @@
+\* TLC -simulate: MaxItems items per program, Orgs = load addresses (incl. one straddling a page / near the top of
+\* memory), WithVectors = 2-byte big-endian vectors as indirect entries (6800), MaxEntries direct entry addresses
 CONSTANTS IsaName = "6800" Cpu = "6800" MaxItems = 12 Orgs = {256, 4096, 60000} WithVectors = TRUE MaxEntries = 4
 INIT Init
 NEXT Next
